@@ -209,7 +209,8 @@ enum opcodetype
 };
 
 // Maximum value that an opcode can be
-static const unsigned int MAX_OPCODE = OP_NOP10;
+// Maximum value that an opcode can be (OP_CHECKSIGADD, added by BIP342, is the highest defined opcode)
+static const unsigned int MAX_OPCODE = OP_CHECKSIGADD;
 
 std::string GetOpName(opcodetype opcode);
 
